@@ -23,6 +23,8 @@ class Hist1Prop:
         if case.get("kind") == "histn":
             from .. import implnd
             outs, log = implnd.run(case)
+            if self.UNOBSERVED and len(case["ops"]) >= 2 and all(isinstance(o, dict) for o in outs):
+                return {"outs": outs, "log": log, "unobserved_outs": outs[:-1] + [implnd.run_unobserved(case)]}
         else:
             outs, log = impl1.run(case)
             if self.UNOBSERVED and len(case["ops"]) >= 2 and all(isinstance(o, dict) for o in outs):
